@@ -288,6 +288,10 @@ def gen_op(rng, idx: int, flavour: str = "plain") -> dict:
         path.append(["var", v])
     if rng.random() < 0.3:
         path.append(["lit", "/tail"])
+    if rng.random() < 0.25:          # a trailing slash is part of the template (after a literal or after a variable)
+        path.append(["lit", "/"])
+    elif rng.random() < 0.1:         # an empty segment inside the template
+        path.insert(1, ["lit", "//e"])
     params: list[dict] = []
     for v in vnames:
         t = rng.choice(["str", "str", "int", "int", "date", "enum", "datetime", "bool"]) if flavour != "safe" \
@@ -374,6 +378,13 @@ def cross_ops() -> list[dict]:
         if k == "items":
             op["json_array"] = "items"
         out.append(op)
+    # path shapes: the root path, a trailing slash after a literal and after a variable, an empty segment inside
+    for k, pth in (("root", [["lit", "/"]]), ("tslit", [["lit", "/xt/items/"]]),
+                   ("tsvar", [["lit", "/xt/items/"], ["var", "id"], ["lit", "/"]]),
+                   ("dbl", [["lit", "/xt//k/"], ["var", "id"], ["lit", "//"]])):
+        out.append({"id": f"x{k}", "tag": "alpha", "method": "get", "path": pth,
+                    "params": ([prm("id", "path", required=True)] if any(x[0] == "var" for x in pth) else []) + [prm("q", "query")],
+                    "body": [], "body_required": False})
     # two path variables that are NOT declared as parameters (outside the theorem's well-formedness condition; the
     # model follows _ensure_path_variables_as_params, which adds them in template order)
     out.append({"id": "xundecl", "tag": "alpha", "method": "get",
@@ -392,7 +403,7 @@ def gen_item(rng, idx: int) -> list[dict]:
     v1, v2 = rng.sample(V_NAMES, 2)
     two = rng.random() < 0.5
     path = [["lit", f"/o{idx}/"], ["var", v1]] + ([["lit", "/"], ["var", v2]] if two else []) + \
-           ([["lit", "/tail"]] if rng.random() < 0.3 else [])
+           ([["lit", "/tail"]] if rng.random() < 0.3 else []) + ([["lit", "/"]] if rng.random() < 0.3 else [])
     shared = [prm(v1, "path", rng.choice(["str", "int", "date"]), True, ref=rng.random() < 0.4),
               prm(rng.choice(Q_NAMES[:5]), "query", rng.choice(["str", "int", "bool"]), rng.random() < 0.4,
                   array=rng.random() < 0.3, ref=rng.random() < 0.5),
